@@ -478,7 +478,7 @@ Definition model_follows (fns : list lkfn) : bool :=
 
 (** ** Gen_Globals: every object with static storage duration *)
 Record acc := mkAcc { a_file : string; a_fn : string; a_kind : string; a_detail : string }.
-Record gobj := mkGobj { g_name : string; g_scope : string; g_file : string; g_const : bool; g_tls : bool;
+Record gobj := mkGobj { g_name : string; g_scope : string; g_file : string; g_type : string; g_const : bool; g_tls : bool;
                         g_init_addr_of : string; g_accs : list acc }.
 
 Fixpoint suffix_mut (s : string) : bool :=      (* detail ends with ":mut" *)
@@ -592,4 +592,49 @@ Proof.
   destruct (classify fns gl reach g) as [p|] eqn:E; [eauto|]. exfalso.
   destruct (flat_map _ gl) eqn:F; [|discriminate].
   pose proof (flat_map_nil_inv _ _ F g Hin) as Hg. cbv beta in Hg. rewrite E in Hg. discriminate.
+Qed.
+
+(** ** C10: every lock of the library is one the fork handlers take care of *)
+Fixpoint contains (sub s : string) : bool :=
+  match s with
+  | EmptyString => prefix sub s
+  | String _ s' => prefix sub s || contains sub s'
+  end.
+Definition lock_types : list string :=
+  ["pthread_mutex_t"; "pthread_rwlock_t"; "pthread_spinlock_t"; "pthread_cond_t"; "pthread_barrier_t"; "sem_t"; "mtx_t"; "atomic_flag"].
+Definition is_lock_object (g : gobj) : bool := existsb (fun ty => contains ty (g_type g)) lock_types.
+Definition lock_objects (globals : list gobj) : list string := map g_name (filter is_lock_object globals).
+
+(** the mutexes the registered handlers hold across fork() (prepare locks, parent unlocks) and re-initialise in the child *)
+Definition covered_locks (fns : list lkfn) : list string :=
+  match atfork_of fns with
+  | Some (Some (p, a, c)) =>
+    match body_of fns p, body_of fns a, body_of fns c with
+    | Some [KLock m1], Some [KUnlock m2], Some (KMutexInit m3 :: _) => if String.eqb m1 m2 && String.eqb m2 m3 then [m1] else []
+    | _, _, _ => []
+    end
+  | _ => []
+  end.
+Definition all_locks_covered (fns : list lkfn) (globals : list gobj) : bool :=
+  list_eqb String.eqb (lock_objects globals) (covered_locks fns) && list_eqb String.eqb (covered_locks fns) [M].
+
+(** functions that take a lock of any kind (also on objects without static storage, also file locks) are functions of tsrm.c that the
+    skeleton obligation pins; nothing else in the library or the entry point locks anything *)
+Definition locking_calls : list string :=
+  ["pthread_mutex_lock"; "pthread_mutex_trylock"; "pthread_mutex_timedlock"; "pthread_mutex_clocklock"; "pthread_rwlock_rdlock"; "pthread_rwlock_wrlock";
+   "pthread_rwlock_tryrdlock"; "pthread_rwlock_trywrlock"; "pthread_spin_lock"; "pthread_spin_trylock"; "pthread_cond_wait"; "pthread_cond_timedwait";
+   "pthread_barrier_wait"; "sem_wait"; "sem_timedwait"; "mtx_lock"; "flock"; "lockf"; "flockfile"; "ftrylockfile"].
+Definition locking_confined (fns : list lkfn) (ctors : list string) (refs : list (string * list string)) : bool :=
+  forallb (fun e => negb (existsb (fun f => str_in f locking_calls) (snd e)) || str_in (fst e) (known_names fns ctors)) refs.
+
+Lemma all_locks_covered_spec fns globals : all_locks_covered fns globals = true ->
+  forall g, In g globals -> is_lock_object g = true -> g_name g = M /\ covered_locks fns = [M].
+Proof.
+  unfold all_locks_covered. intros H g Hin Hl. apply andb_true_iff in H as [H1 H2].
+  apply (list_eqb_eq' String.eqb (fun a b => proj1 (String.eqb_eq a b))) in H1.
+  apply (list_eqb_eq' String.eqb (fun a b => proj1 (String.eqb_eq a b))) in H2.
+  split; [|assumption]. rewrite H2 in H1.
+  assert (Hm : In (g_name g) (lock_objects globals)).
+  { unfold lock_objects. apply in_map. apply filter_In. auto. }
+  rewrite H1 in Hm. destruct Hm as [E|[]]. now symmetry.
 Qed.
